@@ -138,6 +138,14 @@ def check_run(obs, res, cfg, label):  # noqa: C901, PLR0912
 
     if isinstance(res["exc"], AdaptationError):
         obs.count("adaptation_error_runs")
+        # documented only for a variance / covariance adapter that saw fewer than two samples in a stage
+        plan = list(samp.stage_plan(cfg, res["kw"]).items())
+        starved = [k for k, st in plan if st.adapters is not None and 0 < st.n_iter * cfg["n_chain"] < 2 and any(
+            "Variance" in type(a).__name__ or "Covariance" in type(a).__name__ for v in st.adapters.values() for a in v)]
+        if not starved:
+            obs.violation(f"adaptation-error-with-enough-samples:{label}",
+                          f"{res['exc']!r} although every adaptive stage with a metric adapter offers >= 2 samples "
+                          f"(stages {[(k, st.n_iter) for k, st in plan]}, {cfg['n_chain']} chains); cfg={cfg}")
         return None
     if res["exc"] is not None:
         raise res["exc"]
